@@ -120,14 +120,16 @@ class Unpicklable:
         raise TypeError('this object refuses to be pickled')
 
 
-def _result_payload(kind: str, n: int):
-    """Result shapes for the save-path properties (C12 / C13)."""
+def _result_payload(kind: str, n: int, epoch: int = 0):
+    """Result shapes for the save-path properties (C12 / C13).  Large results differ between epochs in
+    content *and* length everywhere, so that an overwrite that mixes an old and a new result is visible."""
+    e = (epoch or 0) % 7
     if kind == 'small':
         return ('small', n)
     if kind == 'multi':                     # > 64 KiB frames under pickle protocol 4/5, JSON-able
-        return ['%04d' % i + 'x' * 1020 for i in range(n)]
+        return ['%04d' % i + 'xyzuvwt'[e] * (1020 - 3 * e) for i in range(n + e)]
     if kind == 'blob':                      # one large bytes object: the pickler writes its header and its
-        return bytes(range(256)) * (4 * n)  # payload (n KiB) with separate write() calls, outside any frame
+        return bytes((b + e) % 256 for b in range(256)) * (4 * n + e)  # payload (n KiB) with separate write() calls, outside any frame
     if kind == 'unpicklable0':              # fails before anything is written
         return Unpicklable()
     if kind == 'unpicklable1':              # fails after one small frame
@@ -139,11 +141,19 @@ def _result_payload(kind: str, n: int):
 
 def _saver_run(self):
     WORLD.rec('start', (type(self).__module__, type(self).__qualname__, self.cache_key))
-    return ('R', type(self).__qualname__, self.kind, self.n, WORLD.epoch, _result_payload(self.kind, self.n))
+    return ('R', type(self).__qualname__, self.kind, self.n, WORLD.epoch, _result_payload(self.kind, self.n, WORLD.epoch))
 
 
 Saver = _mk('Saver', __name__, fields=('kind', 'n'), extra={'run': _saver_run})
 JSaver = _mk('JSaver', __name__, fields=('kind', 'n'), extra={'run': _saver_run}, cache=JsonCache())
+class RenamedMetaCache(JsonCache):
+    """A cache format that keeps its metadata under another file name."""
+    KEY_PREFIX = 'json2__'
+    METADATA_FILENAME = 'entry.meta.json'
+
+
+MSaver = _mk('MSaver', __name__, fields=('kind', 'n'), extra={'run': _saver_run}, cache=RenamedMetaCache())
+USaver = _mk('USaver', __name__, fields=('kind', 'n', 'name'), extra={'run': _saver_run, 'name': 'é日本語-ü€'})     # a non-ASCII parameter value
 
 
 def _ksaver_run(self):
@@ -163,7 +173,7 @@ def _ksaver_run(self):
         inj = LineInjector(in_files('cache.py', 'storage.py'), at=k, exc_factory=die)
         inj.__enter__()
     epoch = (self.context or {}).get('epoch', WORLD.epoch)
-    return ('R', 'Saver', self.kind, self.n, epoch, _result_payload(self.kind, self.n))
+    return ('R', 'Saver', self.kind, self.n, epoch, _result_payload(self.kind, self.n, epoch))
 
 
 KSaver = _mk('KSaver', __name__, fields=('kind', 'n'), extra={'run': _ksaver_run})
